@@ -119,13 +119,14 @@ let check_answer (h, ms, ss, zw) q obs =
       | None -> "FAIL unexpected-error " ^ g
       | Some got ->
         let spec_loc l st = if zw then Locator.spec_locate_mc (Locator.tip_chain ms) l st else Locator.spec_locate ss l st in
-        let want = ids_string (row_ids (spec_loc locs stop)) in
+        let want = lazy (ids_string (row_ids (spec_loc locs stop))) in
         (* beyond the bind-variable limit of SQLite the locator cannot be looked up: refusing (nothing sent) is the
            admissible answer there - C13_locate_too_long / C13_locate_safe; anything else must be the specified one *)
         let too_long = Stdlib.List.length locs > int_of_z Locator.sql_max_vars in
         if got = "!refused" then
           (if too_long then "OK" else "FAIL unexpected-error " ^ g)
-        else if got = want then "OK"
+        else let want = Lazy.force want in
+        if got = want then "OK"
         else if locs = [] && got = "" then
           "FAIL empty-locator-yields-nothing want " ^ want
         else if stop = h.gid && want = "" && got = ids_string (row_ids (spec_loc locs BinNums.N0)) then
